@@ -3,8 +3,9 @@
    same in any two build configurations (dev profile with overflow checks and debug assertions /
    release profile; cargo feature `intrinsics` on / off) and is never a panic.  One theorem per
    structure family, each a conjunction over that family's API.  Pinned statements only; the
-   proofs are in Proofs/C15Rollup.v (on top of the access theorems of C01, C02, C04, C05, C06, C07,
-   C09, C14, C16, C17, C18 and of Proofs/Integration.v).
+   proofs are in Proofs/C15Rollup.v and Proofs/Integration2.v (on top of the access theorems of
+   C01, C02, C03, C04, C05, C06, C07, C09, C10, C11, C12, C14, C16, C17, C18 and of
+   Proofs/Integration.v).
 
    `cfg_independent f` (Proofs/C15Rollup.v, unfolded by C15_unfold below) reads
        forall c1 c2, f c1 = f c2 /\ f c1 <> Panic
@@ -13,15 +14,13 @@
    Serialization (C15_serial, a remark): `ser`, `deser`, `size` of Spec/FormatSpec.v take no
    configuration argument at all, the bytes are a pure function of the value.  A
    configuration-independent builder therefore yields the same bytes in every configuration
-   (C15_bytes); this is restated next to each builder below.
-
-   TO BE ADDED (their access theorems are still being proved): DacsByte, DacsOpt build / access
-   (compute_opt_widths is covered below), SArray, PrefixSummedEliasFano. *)
+   (C15_bytes); this is restated next to each builder below. *)
 From Sucds Require Import Base.Res Spec.WordSpec Spec.BitSpec Spec.SeqSpec Spec.DacSpec Spec.FormatSpec
   Model.BitVector Model.Rank9 Model.DArray Model.EliasFano Model.CompactVector Model.Dacs
-  Model.Wavelet Model.Unary Model.Serial gen.BroadwordGen gen.SerialGen
+  Model.SArray Model.Psef Model.Wavelet Model.Unary Model.Serial gen.BroadwordGen gen.SerialGen
   Proofs.BVAbs Proofs.BVHistory Proofs.IndexSpecs Proofs.EFRep Proofs.EFIter Proofs.EFBuilder
-  Proofs.CVRep Proofs.CVHistory Proofs.UnaryIter Proofs.UnarySkip Proofs.C15Rollup.
+  Proofs.CVRep Proofs.CVHistory Proofs.UnaryIter Proofs.UnarySkip Proofs.SALemmas Proofs.SAMain
+  Proofs.PSMain Proofs.C15Rollup Proofs.Integration2.
 Open Scope N_scope.
 
 (* ---------- the notion ---------- *)
@@ -216,6 +215,98 @@ Theorem C15_dacsopt_widths_value : forall c vals ml,
 Proof. exact compute_opt_widths_value. Qed.
 Print Assumptions C15_dacsopt_widths_value.
 
+(* ---------- DacsByte: from_slice, bytes, len / access / iterator ---------- *)
+
+Theorem C15_dacsbyte : forall vals, Forall (fun x => x < W) vals -> lenN vals < 2 ^ 50 ->
+  cfg_independent (fun c => db_from_slice c vals) /\
+  (forall c1 c2 d1 d2, db_from_slice c1 vals = Ok d1 -> db_from_slice c2 vals = Ok d2 ->
+     forall t, ser t (v_dacsbyte d1) = ser t (v_dacsbyte d2) /\
+               size t (v_dacsbyte d1) = size t (v_dacsbyte d2)) /\
+  (forall c0 d, db_from_slice c0 vals = Ok d -> forall i pos, i < W -> pos < W ->
+     cfg_independent (fun c => db_len c d) /\
+     cfg_independent (fun c => db_access c d i) /\
+     cfg_independent (fun c => db_iter_next c d pos) /\
+     (pos <= lenN vals -> cfg_independent (fun c => iter_size_hint c (lenN vals) pos))).
+Proof. exact C15_dacsbyte_proof. Qed.
+Print Assumptions C15_dacsbyte.
+
+(* ---------- DacsOpt: from_slice with any max_levels (accepted: Some d, or rejected: None, the
+   same in every configuration), bytes, len / access / iterator, the widths ---------- *)
+
+Theorem C15_dacsopt : forall vals mlo, Forall (fun x => x < W) vals -> lenN vals < 2 ^ 50 ->
+  let ml := match mlo with Some m => m | None => 64 end in
+  cfg_independent (fun c => do_from_slice c vals mlo) /\
+  (forall c1 c2 d1 d2, do_from_slice c1 vals mlo = Ok (Some d1) ->
+     do_from_slice c2 vals mlo = Ok (Some d2) ->
+     forall t, ser t (v_dacsopt d1) = ser t (v_dacsopt d2) /\
+               size t (v_dacsopt d1) = size t (v_dacsopt d2)) /\
+  (forall c0 d, do_from_slice c0 vals mlo = Ok (Some d) -> forall i pos, i < W -> pos < W ->
+     cfg_independent (fun c => do_len c d) /\
+     cfg_independent (fun c => do_access c d i) /\
+     cfg_independent (fun c => do_iter_next c d pos) /\
+     (pos <= lenN vals -> cfg_independent (fun c => iter_size_hint c (lenN vals) pos)) /\
+     (vals <> [] -> cfg_independent (fun c => compute_opt_widths c vals ml))).
+Proof. exact C15_dacsopt_proof. Qed.
+Print Assumptions C15_dacsopt.
+
+(* ---------- SArray: from_bits, from_bits [+ enable_rank], bytes, the queries; and the queries
+   and enable_rank on any value satisfying the representation invariant `sa_rep`
+   (Proofs/SAMain.v).  `sa_cap bv` is the capacity of the Elias-Fano layer (Props/C03.v) ---------- *)
+
+Theorem C15_sarray :
+  (forall bv (with_rank : bool), wf bv -> cap_ok bv -> sa_cap bv ->
+   let build c := s0 <- sa_from_bv c bv ;; if with_rank then sa_enable_rank c s0 else Ok s0 in
+   cfg_independent (fun c => sa_from_bv c bv) /\
+   cfg_independent build /\
+   (forall c1 c2 s1 s2, build c1 = Ok s1 -> build c2 = Ok s2 ->
+      forall t, ser t (v_sarray s1) = ser t (v_sarray s2) /\
+                size t (v_sarray s1) = size t (v_sarray s2)) /\
+   (forall c0 s, build c0 = Ok s -> forall i k p,
+      cfg_independent (fun c => sa_access c s i) /\
+      cfg_independent (fun c => sa_select1 c s k) /\
+      cfg_independent (fun c => sa_enable_rank c s) /\
+      (with_rank = true ->
+         cfg_independent (fun c => sa_rank1 c s p) /\
+         cfg_independent (fun c => sa_rank0 c s p) /\
+         cfg_independent (fun c => sa_predecessor1 c s p) /\
+         cfg_independent (fun c => sa_successor1 c s p)))) /\
+  (forall s b, sa_rep s b -> forall i k p,
+   cfg_independent (fun c => sa_access c s i) /\
+   cfg_independent (fun c => sa_select1 c s k) /\
+   cfg_independent (fun c => sa_enable_rank c s) /\
+   (sa_has_rank s = true ->
+      cfg_independent (fun c => sa_rank1 c s p) /\
+      cfg_independent (fun c => sa_rank0 c s p) /\
+      cfg_independent (fun c => sa_predecessor1 c s p) /\
+      cfg_independent (fun c => sa_successor1 c s p))).
+Proof. exact (conj C15_sarray_proof C15_sarray_queries_proof). Qed.
+Print Assumptions C15_sarray.
+
+(* ---------- PrefixSummedEliasFano: from_slice (the empty slice is rejected in every
+   configuration), bytes, sum / access / iterator; and the queries on any value satisfying the
+   representation invariant `ps_rep` (Proofs/PSMain.v).  `ef_cap u m` is the capacity of the
+   Elias-Fano layer (Proofs/SALemmas.v, unfolded in Props/C12.v) ---------- *)
+
+Theorem C15_psef :
+  (forall vals,
+   cfg_independent (fun c => ps_from_slice c []) /\
+   (vals <> [] -> sum_list vals + 1 < W -> ef_cap (sum_list vals + 1) (lenN vals) ->
+    cfg_independent (fun c => ps_from_slice c vals) /\
+    (forall c1 c2 p1 p2, ps_from_slice c1 vals = Ok (Some p1) -> ps_from_slice c2 vals = Ok (Some p2) ->
+       forall t, ser t (v_psef p1) = ser t (v_psef p2) /\ size t (v_psef p1) = size t (v_psef p2)) /\
+    (forall c0 p, ps_from_slice c0 vals = Ok (Some p) -> forall i pos, pos < W ->
+       cfg_independent (fun c => ps_sum c p) /\
+       cfg_independent (fun c => ps_access c p i) /\
+       cfg_independent (fun c => ps_iter_next c p pos) /\
+       (pos <= lenN vals -> cfg_independent (fun c => iter_size_hint c (lenN vals) pos))))) /\
+  (forall p vals, ps_rep p vals -> forall i pos,
+   cfg_independent (fun c => ps_sum c p) /\
+   cfg_independent (fun c => ps_access c p i) /\
+   (pos < W -> lenN vals < 2 ^ 56 -> cfg_independent (fun c => ps_iter_next c p pos)) /\
+   (pos <= lenN vals -> cfg_independent (fun c => iter_size_hint c (lenN vals) pos))).
+Proof. exact (conj C15_psef_proof C15_psef_queries_proof). Qed.
+Print Assumptions C15_psef.
+
 (* ---------- the unary iterator: skip1 / skip0 (single calls and sequences), next ---------- *)
 
 Theorem C15_unary : forall bv, wf bv -> cap_ok bv ->
@@ -257,6 +348,35 @@ Proof.
   split; [|split].
   - intro H. destruct (H {| dbg := true; intr := false |} {| dbg := false; intr := true |}) as [E _].
     vm_compute in E. discriminate E.
+  - vm_compute. reflexivity.
+  - vm_compute. repeat split.
+Qed.
+
+(* the four remaining families on concrete inputs: DacsByte, DacsOpt (3 levels, and a rejected
+   max_levels), SArray with its rank index, PrefixSummedEliasFano; queries and bytes agree under
+   both profiles *)
+Definition c15_pipeline2 (c : cfg) :=
+  let vals := [1; 3; 200; 70000; 0; 5; 12; 255; 256; 1000000] in
+  db <- db_from_slice c vals ;; a1 <- db_access c db 3 ;;
+  od <- do_from_slice c vals (Some 3) ;; d <- unwrap od ;; a2 <- do_access c d 9 ;;
+  rej <- do_from_slice c vals (Some 65) ;;
+  bv <- from_bits c (map (fun i => (i mod 3 =? 0) || (i mod 7 =? 2)) (nseq 300)) ;;
+  s0 <- sa_from_bv c bv ;; s <- sa_enable_rank c s0 ;;
+  r <- sa_rank1 c s 250 ;; s1 <- sa_select1 c s 100 ;; pr <- sa_predecessor1 c s 299 ;;
+  op <- ps_from_slice c vals ;; p <- unwrap op ;; su <- ps_sum c p ;; a3 <- ps_access c p 3 ;;
+  Ok (a1, a2, do_widths d, match rej with None => true | Some _ => false end, r, s1, pr, su, a3,
+      ser ty_DacsByte (v_dacsbyte db), ser ty_DacsOpt (v_dacsopt d), ser ty_SArray (v_sarray s),
+      ser ty_PrefixSummedEliasFano (v_psef p)).
+Example C15_example2 :
+  c15_pipeline2 {| dbg := true; intr := false |} = c15_pipeline2 {| dbg := false; intr := true |} /\
+  match c15_pipeline2 {| dbg := true; intr := false |} with
+  | Ok (a1, a2, ws, rej, r, s1, pr, su, a3, b1, b2, b3, b4) =>
+      a1 = Some 70000 /\ a2 = Some 1000000 /\ ws = [4; 5; 11] /\ rej = true /\
+      r = Some 108 /\ s1 = Some 233 /\ pr = Some 297 /\ su = 1070732 /\ a3 = Some 70000
+  | Panic => False
+  end.
+Proof.
+  split.
   - vm_compute. reflexivity.
   - vm_compute. repeat split.
 Qed.
